@@ -1676,6 +1676,205 @@ fn odd_ranges(g: &mut G) {
 	}
 }
 
+/// second-stage families for vector tiles: tag lists (length 0, 1, 3, 2n+1; indices at table_len-1 /
+/// table_len / u32::MAX; valid key + invalid value and vice versa) and geometry command streams
+fn mvt_stage2(g: &mut G) {
+	let st = imvt::PLAIN;
+	let geoms: Vec<(Option<u32>, Option<Vec<u8>>)> = {
+		let cmd = |id: u64, count: u64| (count << 3) | id;
+		let zz = |v: i64| ((v << 1) ^ (v >> 63)) as u64;
+		let enc = |vals: &[u64]| -> Vec<u8> { vals.iter().flat_map(|v| varint(*v)).collect() };
+		let big = i64::MAX / 2 + 7;
+		vec![
+			(Some(1), Some(enc(&[cmd(1, 1), zz(5), zz(7)]))),
+			(Some(2), Some(enc(&[cmd(1, 1), zz(0), zz(0), cmd(2, 2), zz(3), zz(0), zz(0), zz(3)]))),
+			(Some(3), Some(enc(&[cmd(1, 1), zz(0), zz(0), cmd(2, 2), zz(3), zz(0), zz(0), zz(3), cmd(7, 1)]))),
+			(Some(3), Some(enc(&[cmd(1, 1), zz(0), zz(0), cmd(7, 1)]))),
+			(Some(3), Some(enc(&[cmd(7, 1)]))),
+			(Some(2), Some(enc(&[cmd(2, 1), zz(1), zz(1)]))),
+			(Some(1), Some(enc(&[cmd(1, 0)]))),
+			(Some(1), Some(enc(&[cmd(1, 1 << 28), zz(1), zz(1)]))),
+			(Some(1), Some(enc(&[cmd(1, (1 << 61) - 1), zz(1)]))),
+			(Some(2), Some(enc(&[cmd(1, 3), zz(big), zz(big), zz(big), zz(big), zz(big), zz(big)]))),
+			(Some(2), Some(enc(&[cmd(1, 2), zz(i64::MIN), zz(i64::MIN), zz(i64::MIN), zz(i64::MIN)]))),
+			(Some(1), Some(enc(&[cmd(0, 1), 1, 1]))),
+			(Some(1), Some(enc(&[cmd(3, 1), cmd(4, 1), cmd(5, 1), cmd(6, 1)]))),
+			(Some(1), Some(enc(&[cmd(1, 1), zz(5)]))),
+			(Some(1), Some(vec![0x80])),
+			(Some(1), Some(vec![0xff; 11])),
+			(Some(1), Some(vec![])),
+			(Some(1), None),
+			(None, Some(enc(&[cmd(1, 1), zz(5), zz(7)]))),
+			(Some(0), Some(enc(&[cmd(1, 1), zz(5), zz(7)]))),
+			(Some(4), Some(enc(&[cmd(1, 1), zz(5), zz(7)]))),
+			(Some(u32::MAX), Some(enc(&[cmd(1, 1), zz(5), zz(7)]))),
+			(Some(3), Some(enc(&[cmd(1, 2), zz(0), zz(0), zz(1), zz(1)]))),
+			(Some(1), Some(enc(&[cmd(1, 1), zz(0), zz(0), cmd(2, 1), zz(1), zz(1), cmd(1, 1), zz(2), zz(2)]))),
+			(Some(3), Some(enc(&[cmd(1, 1), zz(0), zz(0), cmd(2, 2), zz(3), zz(0), zz(0), zz(3), cmd(7, 1), cmd(7, 1), cmd(2, 1), zz(1), zz(1)]))),
+		]
+	};
+	for nk in [0usize, 1, 3] {
+		for nv in [0usize, 1, 2] {
+			let keys: Vec<Vec<u8>> = (0..nk).map(|i| format!("k{i}").into_bytes()).collect();
+			let values: Vec<imvt::IValue> = (0..nv).map(|i| if i % 2 == 0 { imvt::IValue::Str(format!("v{i}").into_bytes()) } else { imvt::IValue::UInt(i as u64) }).collect();
+			let (lk, lv) = (nk as u32, nv as u32);
+			let mut tag_lists: Vec<Vec<u32>> = vec![
+				vec![],
+				vec![0],
+				vec![0, 0],
+				vec![0, 0, 0],
+				vec![0, 0, 0, 0, 0],
+				vec![lk.wrapping_sub(1), lv.wrapping_sub(1)],
+				vec![lk, 0],
+				vec![0, lv],
+				vec![lk, lv],
+				vec![lk.wrapping_sub(1), lv],
+				vec![lk, lv.wrapping_sub(1)],
+				vec![u32::MAX, 0],
+				vec![0, u32::MAX],
+				vec![u32::MAX, u32::MAX],
+				vec![u32::MAX],
+				vec![0, 0, lk, lv],
+				vec![0, 0, 0, 0, 0, 0, 1],
+				(0..9).map(|i| i % 2).collect(),
+				(0..64).map(|_| 0).collect(),
+				(0..65).map(|_| 0).collect(),
+			];
+			for n in [2usize, 7, 33] {
+				tag_lists.push((0..2 * n + 1).map(|i| (i as u32) % lk.max(1)).collect());
+			}
+			for (ti, tags) in tag_lists.iter().enumerate() {
+				let (gt, geom) = geoms[(ti + nk + nv) % geoms.len()].clone();
+				// the odd / invalid list alone, before a good feature, and after one
+				let bad = imvt::IFeature { id: Some(ti as u64), tags: tags.clone(), gtype: gt, geom };
+				let good = imvt::IFeature { id: None, tags: if nk > 0 && nv > 0 { vec![0, 0] } else { vec![] }, gtype: Some(1), geom: Some(vec![9, 10, 14]) };
+				for feats in [vec![bad.clone()], vec![good.clone(), bad.clone()], vec![bad.clone(), good.clone()]] {
+					let layer = imvt::ILayer { name: b"a".to_vec(), features: feats, keys: keys.clone(), values: values.clone(), extent: None, version: Some(2) };
+					let b = imvt::encode_tile(&imvt::ITile { layers: vec![layer] }, &st);
+					g.push("mvt", "tag-lists", b, "");
+				}
+			}
+		}
+	}
+	// every geometry stream with every declared geometry type
+	for (_, geom) in &geoms {
+		for gt in [None, Some(0u32), Some(1), Some(2), Some(3), Some(4)] {
+			let f = imvt::IFeature { id: Some(1), tags: vec![], gtype: gt, geom: geom.clone() };
+			let layer = imvt::ILayer { name: b"g".to_vec(), features: vec![f], keys: vec![], values: vec![], extent: Some(4096), version: Some(2) };
+			g.push("mvt", "geometry-commands", imvt::encode_tile(&imvt::ITile { layers: vec![layer] }, &st), "");
+		}
+	}
+}
+
+const MB_KEYS: &[&str] = &["name", "format", "bounds", "center", "minzoom", "maxzoom", "json", "type", "version", "description", "attribution", "author", "license", "scheme", "unknown_key"];
+const MB_VALUES: &[&str] = &[
+	"", " ", "0", "13.4", "13.4,52.5", "13.4,52.5,7", "1,2,3,4", "1,2,3,4,5", "a", "a,b", "1,b,3", "1, 2, 3", " 1 , 2 ", "1,2,", ",", ",,", ",1,2", "1,,2", "1e400,2,3", "-1e400", "nan,nan,nan", "NaN", "inf,-inf,inf",
+	"13.4,52.5,-1", "13.4,52.5,256", "13.4,52.5,3.7", "999,999,1", "-180,-85.05,180,85.05", "-180,-90,180,90", "180,85,-180,-85", "-999,-999,999,999", "0,0,0,0", "255", "256", "-1", "3.5", "99999999999999999999", "pbf", "png", "jpg",
+	"webp", "PBF", "jpeg", "foo", "{}", "[]", "{\"vector_layers\":[]}", "{\"vector_layers\":7}", "{\"vector_layers\":[{\"id\":\"a\",\"fields\":{}}]}", "{\"vector_layers\":[{\"id\":1}]}", "{\"bounds\":[1]}", "{", "null", "٣", "13.4٫5",
+];
+
+/// per metadata key the reader interprets: value families (list lengths, types, extremes, NULL / BLOB /
+/// very long, duplicate rows); plus odd rows of the tiles table
+fn mb_metadata(g: &mut G, dir: &std::path::Path, thorough: bool) {
+	std::fs::create_dir_all(dir).unwrap();
+	let mut tiles = ifm::TileMap::new();
+	tiles.insert((1, 0, 0), b"AAAA".to_vec());
+	tiles.insert((1, 1, 1), b"BBBB".to_vec());
+	let ch = ifm::MbChoices { fmt: ifm::Fmt::Png, as_view: false, with_index: true, extra_meta: vec![], shuffle_rows: false };
+	let p = dir.join("meta-base.mbtiles");
+	let mut r2 = g.rng.fork();
+	if ifm::encode_mbtiles(&p, &ifm::tiles_to_rows(&tiles), &ch, &mut r2).is_err() {
+		return;
+	}
+	let Ok(base) = std::fs::read(&p) else { return };
+	let _ = std::fs::remove_file(&p);
+	let probes = "1/0/0,1/1/1,1/0/1,0/0/0";
+	let esc = |v: &str| v.replace('\'', "''");
+	let mut sqls: Vec<String> = vec![];
+	for (ki, k) in MB_KEYS.iter().enumerate() {
+		for (vi, v) in MB_VALUES.iter().enumerate() {
+			// quick tier: every value for the keys with a list / number syntax, a rotating third for the others
+			let listy = matches!(*k, "bounds" | "center" | "minzoom" | "maxzoom" | "json" | "format");
+			if !thorough && !listy && (vi + ki) % 6 != 0 {
+				continue;
+			}
+			sqls.push(format!("DELETE FROM metadata WHERE name = '{k}'; INSERT INTO metadata VALUES ('{k}', '{}');", esc(v)));
+		}
+		sqls.push(format!("DELETE FROM metadata WHERE name = '{k}'; INSERT INTO metadata VALUES ('{k}', NULL);"));
+		sqls.push(format!("DELETE FROM metadata WHERE name = '{k}'; INSERT INTO metadata VALUES ('{k}', x'ff00fe');"));
+		sqls.push(format!("DELETE FROM metadata WHERE name = '{k}'; INSERT INTO metadata VALUES ('{k}', 12.5);"));
+		sqls.push(format!("DELETE FROM metadata WHERE name = '{k}'; INSERT INTO metadata VALUES ('{k}', '{}');", "9,".repeat(3000)));
+		sqls.push(format!("INSERT INTO metadata VALUES ('{k}', '1,2'); INSERT INTO metadata VALUES ('{k}', 'x'); INSERT INTO metadata VALUES ('{k}', '1,2,3');"));
+	}
+	for t in [
+		"UPDATE tiles SET tile_column = 'x' WHERE zoom_level = 1;",
+		"UPDATE tiles SET tile_row = 1.5;",
+		"UPDATE tiles SET zoom_level = '1';",
+		"UPDATE tiles SET tile_data = x'';",
+		"INSERT INTO tiles VALUES (1, 0, 0, x'01');",
+		"INSERT INTO tiles VALUES (NULL, NULL, NULL, NULL);",
+		"INSERT INTO tiles VALUES (1, 2, 0, x'01'); INSERT INTO tiles VALUES (1, 0, 2, x'01');",
+		"INSERT INTO tiles VALUES (31, 2147483647, 2147483647, x'01');",
+		"INSERT INTO tiles VALUES (31, 2147483648, 0, x'01');",
+		"INSERT INTO tiles VALUES (30, 1073741823, 0, x'01');",
+		"INSERT INTO tiles VALUES (0, 0, 0, x'01'); INSERT INTO tiles VALUES (0, 1, 1, x'01');",
+		"INSERT INTO tiles VALUES (-5, 0, 0, x'01');",
+		"INSERT INTO tiles VALUES (255, 0, 0, x'01'); INSERT INTO tiles VALUES (256, 0, 0, x'01');",
+		"INSERT INTO tiles VALUES (1, -9223372036854775808, 9223372036854775807, x'01');",
+	] {
+		sqls.push(t.to_string());
+	}
+	for sql in sqls {
+		if let Some(v) = sqlite_variant(dir, &base, &sql) {
+			g.push("mb", "metadata-values", v, probes);
+		}
+	}
+}
+
+/// the JSON side channels other readers interpret at open: `tiles.json` members of tar / directory
+/// containers and the PMTiles JSON metadata, with the typed-value family per interpreted key
+fn metadata_side_channels(g: &mut G, thorough: bool) {
+	let e = |id, off, len, run| ifm::PmEntry { id, off, len, run };
+	let root = ifm::serialize_dir(&[e(0, 0, 4, 1), e(1, 4, 4, 2)], true);
+	let (vt_ti, vt_tiles) = {
+		let mut ti = vec![];
+		for (o, l) in [(0u64, 4u32), (4, 4), (8, 4), (12, 4)] {
+			ti.extend(o.to_be_bytes());
+			ti.extend(l.to_be_bytes());
+		}
+		(ti, b"AAAABBBBCCCCDDDD".to_vec())
+	};
+	let blockdef = |o: u64, tl: u64, il: u32| {
+		let mut v = vec![1u8];
+		v.extend(0u32.to_be_bytes());
+		v.extend(0u32.to_be_bytes());
+		v.extend([0u8, 0, 1, 1]);
+		v.extend(o.to_be_bytes());
+		v.extend(tl.to_be_bytes());
+		v.extend(il.to_be_bytes());
+		v
+	};
+	let mut n = 0usize;
+	for k in TJ_KEYS {
+		for v in TJ_VALUES {
+			n += 1;
+			if !thorough && n % 3 != 0 {
+				continue;
+			}
+			let doc = format!("{{\"{k}\":{v}}}");
+			let members = vec![ifm::TarMember::file("1/0/0.pbf", b"AAAA"), ifm::TarMember::file(if n % 2 == 0 { "tiles.json" } else { "meta.json" }, doc.as_bytes())];
+			if let Ok(t) = ifm::encode_tar(&members, 0) {
+				g.push("tar", "metadata-values", t.clone(), "1/0/0,0/0/0");
+				if n % 2 == 0 {
+					g.push("dir", "metadata-values", t, "1/0/0,0/0/0");
+				}
+			}
+			g.push("pm", "metadata-values", pm_custom(&root, doc.as_bytes(), &[], b"AAAABBBBCCCC"), "0/0/0,1/0/0,1/1/1");
+			g.push("vt", "metadata-values", vt_custom(doc.as_bytes(), |o, tl, il| blockdef(o, tl, il), &vt_ti, &vt_tiles), "1/0/0,1/1/1,0/0/0");
+		}
+	}
+}
+
 pub fn generate(args: &Args) -> Vec<Case> {
 	let mut g = G { rng: Rng::new(args.seed), cases: vec![] };
 	let thorough = args.thorough();
@@ -1690,6 +1889,8 @@ pub fn generate(args: &Args) -> Vec<Case> {
 	tilejson_cases(&mut g, args.n(600, 10000));
 	text_cases(&mut g, args.n(3000, 80000));
 	mvt_cases(&mut g, args.n(800, 20000));
+	mvt_stage2(&mut g);
+	metadata_side_channels(&mut g, thorough);
 	dir_cases(&mut g, args.n(600, 16000));
 	fixed_codec_cases(&mut g, args.n(400, 10000));
 	vt_cases(&mut g, args.n(250, 5000));
@@ -1697,7 +1898,18 @@ pub fn generate(args: &Args) -> Vec<Case> {
 	let scratch = if args.out.is_absolute() { args.out.join("c19gen") } else { std::env::current_dir().unwrap().join(&args.out).join("c19gen") };
 	mb_cases(&mut g, &scratch, args.n(100, 1500));
 	after_open(&mut g, &scratch);
+	mb_metadata(&mut g, &scratch, thorough);
 	let _ = std::fs::remove_dir_all(&scratch);
 	tar_cases(&mut g, args.n(300, 6000));
+	// every vector tile that is generated for `from_blob` also goes through the later decoding stages
+	let extra: Vec<Case> = g
+		.cases
+		.iter()
+		.filter(|c| c.ep == "mvt")
+		.flat_map(|c| {
+			["mvtprops", "mvtfull"].into_iter().map(|ep| Case { ep, input: c.input.clone(), probes: String::new(), class: c.class })
+		})
+		.collect();
+	g.cases.extend(extra);
 	g.cases
 }
